@@ -11,121 +11,8 @@ From Coq Require Import ZArith List Bool Lia.
 From Base Require Import Tactics Bytes GoSem.
 From Gen Require Import Tables Translated.
 From Codec Require Import Wire Impl.
-From Topics Require Import Model.
-From Ackq Require Import Model.
-From Trans Require Import Spec.
+From Trans Require Import Common Spec.
 Open Scope N_scope.
-
-(* ---------- generic tactics ---------- *)
-
-(* split on every `if` of the goal, discarding impossible branches *)
-Ltac go_cases := repeat (destr_if; try lia).
-(* split on every `if` of a hypothesis, discarding impossible branches *)
-Ltac go_cases_in H := repeat (destr_if_in H; try lia).
-(* close an equation between results *)
-Ltac finish := try reflexivity; try lia; try (repeat f_equal; lia).
-
-(* equality of two three-component results, component by component *)
-Lemma triple_eq : forall (A B C : Type) (a a' : A) (b b' : B) (c c' : C),
-  a = a' -> b = b' -> c = c' -> Some (a, b, c) = Some (a', b', c').
-Proof. intros. subst. reflexivity. Qed.
-
-(* ---------- the GoSem primitives on translated byte strings ---------- *)
-
-Lemma go_len_zb : forall l, go_len (zb l) = Z.of_nat (length l).
-Proof. intros. unfold go_len, zb. rewrite map_length. reflexivity. Qed.
-
-Lemma zb_app : forall a b, zb (a ++ b) = zb a ++ zb b.
-Proof. intros. unfold zb. apply map_app. Qed.
-
-Lemma zb_cons : forall a l, zb (a :: l) = Z.of_N a :: zb l.
-Proof. reflexivity. Qed.
-
-(* l[lo:hi] of a translated string *)
-Lemma go_sub_zb : forall l lo hi (a b : nat),
-  lo = Z.of_nat a -> hi = Z.of_nat b -> (a <= b)%nat ->
-  go_sub (zb l) lo hi = zb (firstn (b - a) (skipn a l)).
-Proof.
-  intros l lo hi a b -> -> Hab. unfold go_sub, zb.
-  rewrite skipn_map, firstn_map. f_equal. f_equal; [lia|]. f_equal. lia.
-Qed.
-
-(* (pre ++ c :: r)[0:len pre] and (pre ++ c :: r)[len pre + 1 : len] *)
-Lemma go_sub_pre : forall (pre r : list Z) c lo hi,
-  lo = 0%Z -> hi = Z.of_nat (length pre) -> go_sub (pre ++ c :: r) lo hi = pre.
-Proof.
-  intros pre r c lo hi -> ->. unfold go_sub. rewrite Z.sub_0_r, Nat2Z.id.
-  change (Z.to_nat 0) with 0%nat. cbn [skipn].
-  rewrite firstn_app, Nat.sub_diag, firstn_all. cbn [firstn]. apply app_nil_r.
-Qed.
-
-Lemma go_sub_post : forall (pre r : list Z) c lo hi,
-  lo = (Z.of_nat (length pre) + 1)%Z -> hi = (Z.of_nat (length pre) + 1 + Z.of_nat (length r))%Z ->
-  go_sub (pre ++ c :: r) lo hi = r.
-Proof.
-  intros pre r c lo hi -> ->. unfold go_sub.
-  replace (Z.to_nat (Z.of_nat (length pre) + 1)) with (length (pre ++ [c])) by (rewrite app_length; cbn [length]; lia).
-  replace (pre ++ c :: r) with ((pre ++ [c]) ++ r) by (rewrite <- app_assoc; reflexivity).
-  rewrite skipn_app, skipn_all, Nat.sub_diag. cbn [skipn app].
-  replace (Z.to_nat _) with (length r) by lia. apply firstn_all.
-Qed.
-
-(* bytes.IndexByte: -1 exactly when the byte does not occur, a position otherwise *)
-Lemma index_from_spec : forall (t : bytes) (c : N) (cz i : Z),
-  cz = Z.of_N c -> (0 <= i)%Z ->
-  (existsb (fun b => b =? c) t = false /\ index_from (zb t) cz i = (-1)%Z)
-  \/ (existsb (fun b => b =? c) t = true /\ (i <= index_from (zb t) cz i)%Z).
-Proof.
-  induction t as [|x t IH]; intros c cz i Hc Hi.
-  - left. split; reflexivity.
-  - rewrite zb_cons. cbn [existsb index_from].
-    destruct (x =? c) eqn:E.
-    + right. split; [reflexivity|]. destr_if; lia.
-    + destr_if; [lia|]. cbn [orb].
-      destruct (IH c cz (i + 1)%Z Hc ltac:(lia)) as [[A B]|[A B]]; [left|right]; split; auto; lia.
-Qed.
-
-Lemma go_index_byte_spec : forall (t : bytes) (c : N) (cz : Z),
-  cz = Z.of_N c ->
-  (existsb (fun b => b =? c) t = false /\ go_index_byte (zb t) cz = (-1)%Z)
-  \/ (existsb (fun b => b =? c) t = true /\ (0 <= go_index_byte (zb t) cz)%Z).
-Proof. intros. unfold go_index_byte. apply index_from_spec; [assumption|lia]. Qed.
-
-Lemma existsb_or : forall (A : Type) (f g : A -> bool) l,
-  existsb (fun x => f x || g x) l = existsb f l || existsb g l.
-Proof.
-  induction l as [|x l IH]; [reflexivity|]. cbn [existsb]. rewrite IH.
-  destruct (f x), (g x), (existsb f l), (existsb g l); reflexivity.
-Qed.
-
-Lemma skipn_skipn' : forall (A : Type) (a b : nat) (l : list A), skipn a (skipn b l) = skipn (b + a) l.
-Proof.
-  intros A a b. induction b as [|b IH]; intros l; [reflexivity|].
-  destruct l as [|x l]; [rewrite !skipn_nil; reflexivity|]. cbn [skipn Nat.add]. apply IH.
-Qed.
-
-(* binary.BigEndian.Uint16 of a translated string *)
-Lemma go_be16_zb : forall a b r, go_be16 (zb (a :: b :: r)) = Z.of_N (rd16 a b).
-Proof. intros. unfold go_be16, go_nth, rd16. rewrite !zb_cons. cbn [Z.to_nat nth]. change (Pos.to_nat 1) with 1%nat. cbn [nth]. lia. Qed.
-
-(* PutUint16 followed by copy(buf[2:], b), the destination being long enough *)
-Lemma go_copy_put16 : forall (buf b : bytes) (v tot : Z),
-  v = Z.of_N (len b) -> len b <= 65535 -> tot = 2%Z -> (2 + length b <= length buf)%nat ->
-  go_copy (go_put16 (zb buf) v) tot (zb b) = zb (lp b ++ skipn (2 + length b) buf).
-Proof.
-  intros buf b v tot -> Hb -> Hl.
-  destruct buf as [|x [|y buf]]; cbn [length] in Hl; try lia.
-  unfold go_copy, go_put16, lp, be16.
-  change (Z.to_nat 2) with 2%nat. rewrite !zb_cons. cbn [skipn length Nat.add].
-  assert (Lb : length (zb b) = length b) by (unfold zb; apply map_length).
-  assert (Lf : length (zb buf) = length buf) by (unfold zb; apply map_length).
-  rewrite Lb, Lf.
-  replace (Nat.min (S (S (length buf)) - 2) (length b)) with (length b) by lia.
-  cbn [firstn]. rewrite <- Lb, firstn_all, Lb.
-  rewrite !zb_app. cbn [app]. rewrite !zb_cons. cbn [zb map app].
-  f_equal; [lia|]. f_equal; [lia|]. f_equal.
-  unfold zb. rewrite skipn_map. reflexivity.
-Qed.
 
 (* ---------- the straight-line functions ---------- *)
 
@@ -147,8 +34,6 @@ Proof.
   cbn [filter]. go_cases; cbn [length]; finish.
 Qed.
 
-Lemma full_empty_equiv : T_full_empty.
-Proof. intros count size. unfold go_sessions_full, go_sessions_empty. split; f_equal; lia. Qed.
 
 Lemma validTopic_equiv : T_ValidTopic.
 Proof.
@@ -195,243 +80,6 @@ Proof.
   - intros w. unfold write_lp. destr_if; intros H; [discriminate|]. congruence.
 Qed.
 
-(* ---------- the ack queue ring arithmetic ---------- *)
-
-Lemma index_equiv : T_index.
-Proof.
-  intros k n.
-  assert (H : N.land n (2 ^ k - 1) = n mod 2 ^ k).
-  { rewrite <- N.land_ones. f_equal. rewrite N.ones_equiv, N.pred_sub. reflexivity. }
-  split; [|exact H].
-  assert (HZ : Z.land (Z.of_N n) (Z.of_N (2 ^ k - 1)) = Z.of_N (n mod 2 ^ k)).
-  { assert (P : (0 < 2 ^ k)) by (apply N.neq_0_lt_0, N.pow_nonzero; discriminate).
-    rewrite N2Z.inj_sub by lia. rewrite N2Z.inj_mod, N2Z.inj_pow.
-    change (Z.of_N 2) with 2%Z. change (Z.of_N 1) with 1%Z.
-    rewrite <- Z.land_ones by lia. f_equal. rewrite Z.ones_equiv. lia. }
-  unfold go_sessions_index. f_equal.
-  first [exact HZ | rewrite Z.land_comm; exact HZ].
-Qed.
-
-(* n & (n-1) == 0 on positive integers: the powers of two *)
-Lemma land_pred_pow2 : forall z : Z, (0 < z)%Z ->
-  (Z.land z (z - 1) = 0%Z <-> exists k : Z, (0 <= k)%Z /\ z = (2 ^ k)%Z).
-Proof.
-  intros z Hz. split.
-  - intros H. exists (Z.log2 z). split; [apply Z.log2_nonneg|].
-    pose proof (Z.log2_spec z Hz) as [Lo Hi].
-    destruct (Z.eq_dec z (2 ^ Z.log2 z)) as [|Ne]; [assumption|exfalso].
-    assert (L1 : Z.log2 (z - 1) = Z.log2 z)
-      by (apply Z.log2_unique; [apply Z.log2_nonneg|lia]).
-    assert (B : Z.testbit (Z.land z (z - 1)) (Z.log2 z) = true).
-    { rewrite Z.land_spec, (Z.bit_log2 z Hz).
-      rewrite <- L1. rewrite Z.bit_log2; [reflexivity|].
-      assert (0 < 2 ^ Z.log2 z)%Z by (apply Z.pow_pos_nonneg; [lia|apply Z.log2_nonneg]). lia. }
-    rewrite H, Z.bits_0 in B. discriminate.
-  - intros [k [Hk ->]].
-    replace (2 ^ k - 1)%Z with (Z.ones k) by (rewrite Z.ones_equiv; lia).
-    rewrite Z.land_ones by assumption. apply Z_mod_same_full.
-Qed.
-
-Definition pow2_test (z : Z) : bool := negb (z =? 0)%Z && (Z.land z (z - 1) =? 0)%Z.
-
-Lemma pow2_test_spec : forall n : N, pow2_test (Z.of_N n) = true <-> exists k, n = 2 ^ k.
-Proof.
-  intros n. unfold pow2_test. split.
-  - intros H. apply andb_true_iff in H as [H1 H2].
-    assert (Hz : (0 < Z.of_N n)%Z) by lia.
-    apply Z.eqb_eq in H2. apply (land_pred_pow2 _ Hz) in H2 as [k [Hk E]].
-    exists (Z.to_N k). apply N2Z.inj. rewrite N2Z.inj_pow, Z2N.id by assumption. exact E.
-  - intros [k ->].
-    assert (Hz : (0 < Z.of_N (2 ^ k))%Z).
-    { rewrite N2Z.inj_pow. apply Z.pow_pos_nonneg; lia. }
-    apply andb_true_iff. split; [lia|]. apply Z.eqb_eq.
-    apply (land_pred_pow2 _ Hz). exists (Z.of_N k). split; [lia|]. apply N2Z.inj_pow.
-Qed.
-
-Lemma powerOfTwo_equiv : T_powerOfTwo.
-Proof.
-  intros n.
-  assert (A : go_sessions_powerOfTwo64 (Z.of_N n) = Some (pow2_test (Z.of_N n))).
-  { unfold go_sessions_powerOfTwo64, pow2_test. f_equal; lia. }
-  assert (B : go_service_powerOfTwo64 (Z.of_N n) = Some (pow2_test (Z.of_N n))).
-  { unfold go_service_powerOfTwo64, pow2_test. f_equal; lia. }
-  rewrite A, B. split; [|split; [reflexivity|discriminate]].
-  rewrite <- pow2_test_spec. split; [congruence|intros ->; reflexivity].
-Qed.
-
-(* ---------- roundUpPowerOfTwo64: the or-cascade ---------- *)
-
-(* bit i of y is set exactly when one of the bits i .. i+j-1 of x is *)
-Definition covers (x j y : Z) : Prop :=
-  forall i, (0 <= i)%Z ->
-  (Z.testbit y i = true <-> exists d, (0 <= d < j)%Z /\ Z.testbit x (i + d) = true).
-
-Lemma covers_init : forall x, covers x 1 x.
-Proof.
-  intros x i Hi. split.
-  - intros H. exists 0%Z. split; [lia|]. rewrite Z.add_0_r. exact H.
-  - intros [d [Hd H]]. replace d with 0%Z in H by lia. rewrite Z.add_0_r in H. exact H.
-Qed.
-
-Lemma covers_step : forall x j j' y, (0 < j)%Z -> j' = (2 * j)%Z ->
-  covers x j y -> covers x j' (Z.lor y (Z.shiftr y j)).
-Proof.
-  intros x j j' y Hj -> C i Hi.
-  rewrite Z.lor_spec, Z.shiftr_spec by assumption. rewrite orb_true_iff.
-  rewrite (C i Hi), (C (i + j)%Z ltac:(lia)). split.
-  - intros [[d [Hd H]]|[d [Hd H]]].
-    + exists d. split; [lia|exact H].
-    + exists (j + d)%Z. split; [lia|]. rewrite Z.add_assoc. exact H.
-  - intros [d [Hd H]]. destruct (Z_lt_ge_dec d j) as [Lt|Ge].
-    + left. exists d. split; [lia|exact H].
-    + right. exists (d - j)%Z. split; [lia|]. replace (i + j + (d - j))%Z with (i + d)%Z by lia. exact H.
-Qed.
-
-Lemma covers_step_comm : forall x j j' y, (0 < j)%Z -> j' = (2 * j)%Z ->
-  covers x j y -> covers x j' (Z.lor (Z.shiftr y j) y).
-Proof. intros. rewrite Z.lor_comm. eapply covers_step; eassumption. Qed.
-
-(* once 64 positions are covered, everything below the top bit of x < 2^64 is set *)
-Lemma covers_final : forall x y, (0 < x < 2 ^ 64)%Z -> covers x 64 y ->
-  y = Z.ones (Z.log2 x + 1).
-Proof.
-  intros x y [Hx Hb] C. apply Z.bits_inj'. intros i Hi.
-  pose proof (Z.log2_nonneg x) as K0.
-  assert (K : (Z.log2 x < 64)%Z) by (apply Z.log2_lt_pow2; assumption).
-  destruct (Z_lt_ge_dec i (Z.log2 x + 1)) as [Lt|Ge].
-  - rewrite Z.ones_spec_low by lia. apply (C i Hi).
-    exists (Z.log2 x - i)%Z. split; [lia|].
-    replace (i + (Z.log2 x - i))%Z with (Z.log2 x) by lia. apply Z.bit_log2. assumption.
-  - rewrite Z.ones_spec_high by lia.
-    destruct (Z.testbit y i) eqn:E; [|reflexivity].
-    apply (C i Hi) in E as [d [Hd H]].
-    rewrite Z.bits_above_log2 in H by lia. discriminate.
-Qed.
-
-Lemma covers_succ : forall x y, (0 < x < 2 ^ 64)%Z -> covers x 64 y ->
-  (y + 1 = 2 ^ (Z.log2 x + 1))%Z.
-Proof. intros x y Hx C. rewrite (covers_final x y Hx C), Z.ones_equiv. lia. Qed.
-
-(* prove `covers x 64 (cascade)` for a cascade of steps y |= y >> j, j = 1, 2, 4, ..., 32 *)
-Ltac cascade :=
-  repeat (first [eapply covers_step | eapply covers_step_comm]; [lia|lia|]); apply covers_init.
-Ltac round_up :=
-  first [apply covers_succ | rewrite Z.add_comm; apply covers_succ]; [lia|cascade].
-
-Lemma roundUp_sessions : forall z, (1 < z <= 2 ^ 64)%Z ->
-  go_sessions_roundUpPowerOfTwo64 z = Some (2 ^ (Z.log2 (z - 1) + 1))%Z.
-Proof.
-  intros z Hz. unfold go_sessions_roundUpPowerOfTwo64. cbv zeta. f_equal.
-  round_up.
-Qed.
-
-Lemma roundUp_service : forall z, (1 < z <= 2 ^ 64)%Z ->
-  go_service_roundUpPowerOfTwo64 z = Some (2 ^ (Z.log2 (z - 1) + 1))%Z.
-Proof.
-  intros z Hz. unfold go_service_roundUpPowerOfTwo64. cbv zeta. f_equal.
-  round_up.
-Qed.
-
-Lemma roundUp_equiv : T_roundUp.
-Proof.
-  intros n Hn Hb.
-  destruct (N.eq_dec n 1) as [->|N1].
-  - exists 0. repeat split; try reflexivity; lia.
-  - assert (B62 : (Z.of_N n <= 2 ^ 62)%Z).
-    { change (2 ^ 62)%Z with (Z.of_N (2 ^ 62)). lia. }
-    assert (Hz : (1 < Z.of_N n <= 2 ^ 64)%Z) by lia.
-    set (x := (Z.of_N n - 1)%Z) in *.
-    assert (Hx : (0 < x)%Z) by lia.
-    pose proof (Z.log2_nonneg x) as K0.
-    pose proof (Z.log2_spec x Hx) as [Lo Hi].
-    exists (Z.to_N (Z.log2 x + 1)).
-    assert (P : Z.of_N (2 ^ Z.to_N (Z.log2 x + 1)) = (2 ^ (Z.log2 x + 1))%Z).
-    { rewrite N2Z.inj_pow, Z2N.id by lia. reflexivity. }
-    rewrite P.
-    split; [apply roundUp_sessions; exact Hz|].
-    split; [apply roundUp_service; exact Hz|].
-    assert (S2 : (2 ^ (Z.log2 x + 1) = 2 * 2 ^ Z.log2 x)%Z) by (apply Z.pow_succ_r; lia).
-    unfold Z.succ in Hi.
-    generalize dependent (2 ^ Z.to_N (Z.log2 x + 1)). intros p P.
-    generalize dependent (2 ^ (Z.log2 x + 1))%Z. intros q Hi S2 P.
-    generalize dependent (2 ^ Z.log2 x)%Z. intros q0 Lo S2.
-    subst x. lia.
-Qed.
-
-(* ---------- nextTopicLevel: the scanning loop ---------- *)
-
-(* the loop body of the translation, read off the generated definition *)
-Definition ntl_body (topic : list Z) : Z -> Z -> Z -> option (Z + (list Z * list Z * bool)) :=
-  ltac:(let d := eval cbv beta zeta delta [go_topics_nextTopicLevel go_range] in (go_topics_nextTopicLevel topic) in
-        match d with context [go_range_from _ _ ?b _] => exact b end).
-
-(* what the function does with the outcome of the loop: panic, early return, or fall through to
-   `return topic, nil, nil` *)
-Definition ntl_fin (topic : list Z) (x : option (Z + (list Z * list Z * bool))) : option (list Z * list Z * bool) :=
-  match x with
-  | None => None
-  | Some (inr r) => Some r
-  | Some (inl _) => Some (topic, [], false)
-  end.
-
-(* the scanner states as the Go constants stateCHR, stateMWC, stateSWC, stateSYS *)
-Definition st (s : lstate) : Z :=
-  match s with sCHR => 0 | sMWC => 1 | sSWC => 2 | sSYS => 4 end.
-
-Lemma ntl_unfold : forall topic,
-  go_topics_nextTopicLevel topic = ntl_fin topic (go_range_from 0 topic (ntl_body topic) (st sCHR)).
-Proof. reflexivity. Qed.
-
-(* the result of the model as the translation returns it *)
-Definition ntl_res (r : option (bytes * bytes)) : list Z * list Z * bool :=
-  match r with Some (l, r) => (zb l, zb r, false) | None => ([], [], true) end.
-
-(* the loop from position i = length pre in state s, topic = pre ++ rest, is the model's scan with
-   accumulator rev pre *)
-Lemma ntl_loop : forall (topic rest pre : bytes) (s : lstate) (i z : Z),
-  topic = pre ++ rest -> i = Z.of_nat (length pre) -> z = st s ->
-  ntl_fin (zb topic) (go_range_from i (zb rest) (ntl_body (zb topic)) z) =
-  Some (ntl_res (scan rest (length pre) s (rev pre))).
-Proof.
-  intros topic rest. induction rest as [|c r IH]; intros pre s i z HT Hi Hz.
-  - cbn [zb map go_range_from ntl_fin scan ntl_res]. rewrite rev_involutive.
-    subst topic. rewrite app_nil_r. reflexivity.
-  - rewrite zb_cons. cbn [go_range_from].
-    (* facts about the slices of topic the body may take *)
-    assert (TZ : zb topic = zb pre ++ Z.of_N c :: zb r) by (subst topic; rewrite zb_app, zb_cons; reflexivity).
-    assert (LP : length (zb pre) = length pre) by (unfold zb; apply map_length).
-    assert (LR : length (zb r) = length r) by (unfold zb; apply map_length).
-    assert (L : go_len (zb topic) = (i + 1 + Z.of_nat (length r))%Z).
-    { rewrite TZ. unfold go_len. rewrite app_length. cbn [length]. lia. }
-    assert (P1 : forall lo hi, lo = 0%Z -> hi = i -> go_sub (zb topic) lo hi = zb pre).
-    { intros lo hi H1 H2. rewrite TZ. apply go_sub_pre; [assumption|]. rewrite LP. lia. }
-    assert (P2 : forall lo hi, lo = (i + 1)%Z -> hi = go_len (zb topic) -> go_sub (zb topic) lo hi = zb r).
-    { intros lo hi H1 H2. rewrite L in H2. rewrite TZ. apply go_sub_post; rewrite LP, ?LR; lia. }
-    (* the induction hypothesis at pre ++ [c] *)
-    specialize (IH (pre ++ [c])).
-    rewrite app_length, rev_app_distr in IH. cbn [length rev app] in IH.
-    rewrite Nat.add_1_r, <- app_assoc in IH. cbn [app] in IH.
-    specialize (fun s' z' => IH s' (i + 1)%Z z' HT ltac:(lia)).
-    clear TZ HT LP LR.
-    remember (zb topic) as T eqn:ET. clear ET.
-    (* one iteration *)
-    remember (ntl_body T i (Z.of_N c) z) as B eqn:EB.
-    unfold ntl_body in EB. cbn [scan]. unfold SEP, MWC, SWC, SYS.
-    destruct s; cbn [st] in Hz; subst z;
-      go_cases; go_cases_in EB; subst B;
-      try (apply IH; reflexivity);
-      cbn [ntl_fin ntl_res]; rewrite ?rev_involutive;
-      try reflexivity;
-      apply triple_eq; try reflexivity; try (apply P1; lia); try (apply P2; lia).
-Qed.
-
-Lemma nextTopicLevel_equiv : T_nextTopicLevel.
-Proof.
-  intros t. rewrite ntl_unfold.
-  rewrite (ntl_loop t t [] sCHR 0%Z (st sCHR) eq_refl eq_refl eq_refl).
-  unfold next_level, ntl_res. cbn [length rev]. reflexivity.
-Qed.
-
 (* ---------- nextPacketID ---------- *)
 
 Local Open Scope Z_scope.
@@ -475,17 +123,4 @@ Proof.
     destruct ((z + 1) mod 65536 =? 0) eqn:E1; [unfold z in *; lia|].
     cbn [negb fst snd]. f_equal. f_equal; unfold z; rewrite ?H64; lia.
 Qed.
-
-Print Assumptions nextTopicLevel_equiv.
-Print Assumptions validTopic_equiv.
-Print Assumptions validQos_equiv.
-Print Assumptions typeValid_equiv.
-Print Assumptions defaultFlags_equiv.
-Print Assumptions msglen_equiv.
-Print Assumptions readLPBytes_equiv.
-Print Assumptions writeLPBytes_equiv.
-Print Assumptions index_equiv.
-Print Assumptions full_empty_equiv.
-Print Assumptions powerOfTwo_equiv.
-Print Assumptions roundUp_equiv.
 Print Assumptions nextPacketID_equiv.
